@@ -1793,6 +1793,30 @@ impl<'a, 'b> Gen<'a, 'b> {
     pub fn specparam_declaration(&mut self) {
         self.tag("specparam");
         self.kw("specparam");
+        if self.t.chance(1, 5) {
+            // pulse_control_specparam (A.2.4): PATHPULSE$ or PATHPULSE$in$out, written as one word
+            self.tag("specparam-pathpulse");
+            let w = *self.t.pick(&["PATHPULSE$", "PATHPULSE$in_a1$out_b2", "PATHPULSE$clk$q", "PATHPULSE$a$b"]);
+            self.raw(w);
+            self.sym("=");
+            self.sym("(");
+            let n = 1 + self.t.below(2);
+            for i in 0..n {
+                if i > 0 {
+                    self.sym(",");
+                }
+                self.small_const();
+                if self.t.chance(1, 3) {
+                    self.sym(":");
+                    self.small_const();
+                    self.sym(":");
+                    self.small_const();
+                }
+            }
+            self.sym(")");
+            self.sym(";");
+            return;
+        }
         if self.t.chance(1, 3) {
             self.range();
         }
